@@ -121,7 +121,10 @@ def objects(tier):
                f'defaultdict(list, {{1: {a}}})', f'OrderedDict({{1: {a}}})', f'ChainMap({{1: {a}}})', f'{{{a}: 1}}.keys()', f'{{1: {a}}}.values()', f'{{1: {a}}}.items()', f'UserSeq([{a}])', f'UserSet([{a}])', f'UserMap({{1: {a}}})', f'UserColl([{a}])']
     d1 += ['[]', '()', '{}', 'set()', 'frozenset()', 'deque()', 'range(3)', 'range(0)', '[1, "a"]', '(1, "a", 2.5)', '{1, "a"}', '{1: "a", "b": 2}', '[1, None]', '[[1], ["a"]]', '[[], [1]]', '{"k": [1, "a"]}', '[{"a": 1}, {"b": "c"}]',
            '([1], {"a": (1, 2)})', '[(1, "a"), (2, "b")]', '{(1, 2): [3]}', '[1, [2, [3, ["x"]]]]', 'tuple(range(30))', '[[1, 2], [3, 4]]', 'b"abc"', 'bytearray(b"x")', 'memoryview(b"x")', '{"a": 1}.items()',
-           "{1: [1]}.items()", "{1: {2: 3}}.values()", 'UserSeq([UserSeq([1])])', '[UserMap({1: [1]})]', '[L0(), L2()]', '[L0, L1]', '[int, str]', '[len, print]', '(lambda: 0)', 'len', 'L0', 'int', '[list[int]]', '(List[int], 3)', '{1: Optional[int]}', '[Union[int, str]]', '[1, list[int]]']
+           "{1: [1]}.items()", "{1: {2: 3}}.values()", 'UserSeq([UserSeq([1])])', '[UserMap({1: [1]})]', '[L0(), L2()]', '[L0, L1]', '[int, str]', '[len, print]', '(lambda: 0)', 'len', 'L0', 'int', '[list[int]]', '(List[int], 3)', '{1: Optional[int]}', '[Union[int, str]]', '[1, list[int]]',
+           # items that compare (and hash) equal but differ in type
+           '[1, 1.0]', '[1.0, 1]', '[0, False, 0.0]', '[True, 1]', '{"k": [2, 2.0]}', '(7, 7.0) * 6', 'deque([1, 1.0, True])', '[(1,), (1.0,)]', 'UserSeq([1, 1.0])', '{1: 1.0, 2: 1}', '[1j, 1, 1.0]', '[[1, 1.0], [True]]',
+           '{1.0: "a", 2: "b"}', 'frozenset([1, 2.0])', '[b"a", "a"]', '["", 0, None, 0.0]']
     d2 = [f'[{x}]' for x in d1[:60]] + [f'({x}, 1)' for x in d1[:40] if 'keys()' not in x] + [f'{{"k": {x}}}' for x in d1[:40]]
     out += d1 + (d2 if tier != 'quick' else d2[::4])
     return out
@@ -133,6 +136,8 @@ def bounded(rep, tier):
     from typing import List, Optional, Union
     NS = dict(shapes.NS); NS.update(List=List, Optional=Optional, Union=Union)
     cases = 0; fails = []
+    from beartype import BeartypeConf, BeartypeStrategy
+    CONF_ON = BeartypeConf(strategy=BeartypeStrategy.On)
     from beartype._util.hint.pep.utilpeptest import is_hint_pep
     for src in objects(tier):
         try: o = eval(src, NS)
@@ -146,6 +151,11 @@ def bounded(rep, tier):
             o2 = eval(src, NS)
             ok = is_bearable(o2 if not hasattr(o2, '__next__') else o, h)
             if ok is not True: fails.append((src, f'infer_hint -> {h!r}; is_bearable is {ok}'))
+            else:
+                # "describes the object at full depth": every item, not only the sampled one
+                o3 = eval(src, NS)
+                okn = is_bearable(o3 if not hasattr(o3, '__next__') else o, h, conf=CONF_ON)
+                if okn is not True: fails.append((src, f'infer_hint -> {h!r}; is_bearable under the linear-time strategy (every item) is {okn}'))
         except Exception as e: fails.append((src, f'{type(e).__name__}: {e}'[:200]))
     # self-referential containers terminate with the recursion warning
     def rec_cases():
